@@ -88,6 +88,7 @@ func (q *rpcQueue) push(rpc *RPC, urgent bool, block bool) error {
 				panic(ErrQueuePushOnClosed)
 			}
 		} else {
+			verifPushed(q, rpc, urgent, ErrQueueFull)
 			return ErrQueueFull
 		}
 	}
@@ -98,6 +99,7 @@ func (q *rpcQueue) push(rpc *RPC, urgent bool, block bool) error {
 	}
 
 	q.dataAvailable.Signal()
+	verifPushed(q, rpc, urgent, nil)
 	return nil
 }
 
